@@ -108,3 +108,24 @@ func GDuplicates() []*ag.Grammar {
 		mk(9, r("S", ag.N("A")), r("A", ag.E()), r("A", a())),
 	}
 }
+
+// GNames: the same diagnostics for rules whose names resemble the names the generator makes up
+// itself (Action0, PegText, Unknown) or its own identifiers.
+func GNames() []*ag.Grammar {
+	names := []string{"Action", "ActionList", "Actions", "Action_1", "PegTextual", "PegText1", "Unknown1", "Rules", "Position", "Ko", "Ok"}
+	var out []*ag.Grammar
+	for i, n := range names {
+		mk := func(k int, rules ...ag.Rule) {
+			g := &ag.Grammar{ID: fmt.Sprintf("GN/%d/%d", i, k), Rules: rules}
+			g.Number()
+			out = append(out, g)
+		}
+		mk(0, ag.Rule{Name: "R0", Body: lit("a")}, ag.Rule{Name: n, Body: lit("b")})
+		mk(1, ag.Rule{Name: "R0", Body: ag.S(lit("a"), ag.N(n))})
+		mk(2, ag.Rule{Name: "R0", Body: ag.S(lit("a"), ag.N(n))}, ag.Rule{Name: n, Body: ag.A(ag.S(ag.N(n), lit("c")), lit("b"))})
+		mk(3, ag.Rule{Name: "R0", Body: ag.N(n)}, ag.Rule{Name: n, Body: lit("b")})
+		mk(4, ag.Rule{Name: "R0", Body: lit("a")}, ag.Rule{Name: n, Body: ag.S(lit("b"), ag.N(n+"X"))})
+		mk(5, ag.Rule{Name: n, Body: ag.S(lit("a"), ag.Action())}, ag.Rule{Name: "Spare", Body: ag.S(lit("b"), ag.Action())})
+	}
+	return out
+}
